@@ -7,12 +7,6 @@ pub open spec fn all_wf(ts: Seq<RawToken>, nsrc: int, nnames: int) -> bool {
     forall|k: int| 0 <= k < ts.len() ==> wf_tok(#[trigger] ts[k], nsrc, nnames)
 }
 
-/// the range bitfield of one line (C07): one base64 digit per six segments, least significant bit first
-pub open spec fn rmi_bits(s: Seq<u8>) -> Seq<bool> {
-    Seq::new(6 * s.len(), |j: int| bit_of(b64_index(s[j / 6]) as u8, j % 6))
-}
-pub open spec fn rmi_valid(s: Seq<u8>) -> bool { forall|i: int| 0 <= i < s.len() ==> b64_index(#[trigger] s[i]) >= 0 }
-
 /// every piece of a split is no longer than the whole
 pub proof fn lemma_split_piece_len(s: Seq<u8>, sep: u8)
     ensures forall|i: int| 0 <= i < split_seq(s, sep).len() ==> (#[trigger] split_seq(s, sep)[i]).len() <= s.len(),
